@@ -62,7 +62,7 @@ func (impl Implementation) Dormlq(side blas.Side, trans blas.Transpose, m, n, k 
 
 	// Quick return if possible.
 	if m == 0 || n == 0 || k == 0 {
-		work[0] = 1
+		work[0] = float64(max(1, nw))
 		return
 	}
 
